@@ -13,9 +13,9 @@ AlphaNum == << <<43>>, <<45>>, <<46>>, <<48>>, <<49>>, <<57>>, <<101>>, <<69>> >
 AlphaObj == << <<123>>, <<125>>, <<91>>, <<93>>, <<44>>, <<34, 97, 34, 58>>, <<34, 98, 34, 58>>, <<34, 98, 34>>, <<48>>, <<32>> >>
 \* { } , "a":0 "b":0      (member order)
 AlphaOrd == << <<123>>, <<125>>, <<44>>, <<34, 97, 34, 58, 48>>, <<34, 98, 34, 58, 48>> >>
-\* " \ u \u d83d de00 0041 +041 n 0 LF     (escapes: hex quads as tokens so that surrogate pairs fit; LF = a raw control character)
-AlphaEsc == << <<34>>, <<92>>, <<117>>, <<92, 117>>, <<100, 56, 51, 100>>, <<100, 101, 48, 48>>, <<48, 48, 52, 49>>,
-               <<43, 48, 52, 49>>, <<110>>, <<48>>, <<10>> >>
+\* " \ \ud83d \ude00 \u0041 \u+041 \u004 n 0 LF    (escapes as tokens so that surrogate pairs fit; LF = a raw control character)
+AlphaEsc == << <<34>>, <<92>>, <<92, 117, 100, 56, 51, 100>>, <<92, 117, 100, 101, 48, 48>>, <<92, 117, 48, 48, 52, 49>>,
+               <<92, 117, 43, 48, 52, 49>>, <<92, 117, 48, 48, 52>>, <<110>>, <<48>>, <<10>> >>
 \* atoms for the serialiser model: [ ] { } , : and strings / numbers / words exercising every escaping rule
 AlphaSer == << <<91>>, <<93>>, <<123>>, <<125>>, <<44>>, <<58>>,
                <<34, 92, 117, 48, 48, 48, 48, 92, 110, 47, 34>>,          \* "\u0000\n/"
